@@ -64,7 +64,7 @@ PURE_METHODS = NOISE_METHODS | {
 }
 
 
-_PURE_LABEL = re.compile(r"\bself\b|\bitem\b|φ|loop\(|\.(take|pop|pop_front|pop_back|next|get|borrow|eat|peek|read|recv|insert|remove|push)\(|\b[a-z_]+\([^)]*\)\.")
+_PURE_LABEL = re.compile(r"\bself\b|\bitem\b|φ|loop\(|\.(take|pop|pop_front|pop_back|next|get|borrow|eat|peek|read|recv|insert|remove|push)\(|\b(?!new\(|from\(|default\(|from_slice\()[a-z_]+\([^)]*\)\.")
 OPTION_METHODS = {"ok_or", "ok_or_else", "is_some", "is_none", "is_ok", "is_err", "unwrap_or", "unwrap_or_else", "unwrap_or_default", "map_or", "map_or_else", "is_some_and", "is_ok_and", "is_none_or", "map", "and_then"}
 # name -> 'Option' | 'Result' for the crates' own functions whose declared return type is one (set by lib.ast.Ast)
 RET_FAMILY = {}
